@@ -243,6 +243,45 @@ Fixpoint rc_scan (typ : bytes) (now h : N) (l : list change) : list change :=
 Definition read_changes (typ : bytes) (now h : N) (desc : bool) (st : mstate) : list change :=
   let l := rc_scan typ now h (changes st) in if desc then rev l else l.
 
+(* ReadChanges with a continuation token and a page size.  Positions in the log (1, 2, ...) play
+   the role of the ULIDs: token 0 = no token; entries at positions <= token are skipped; the
+   horizon test (and its break) comes first, as coded; the page is the first [ps] survivors and
+   the new token the position of the last one returned (the request's token when nothing is
+   returned: ErrNotFound, the command answers with the token it was given). *)
+Fixpoint rc_scan_from (typ : bytes) (now h : N) (from i : nat) (l : list change) : list (nat * change) :=
+  match l with
+  | [] => []
+  | c :: l' =>
+      if type_ok typ (c_key c) then
+        if now <? c_ts c + h then []
+        else if (i <=? from)%nat then rc_scan_from typ now h from (S i) l'
+        else (i, c) :: rc_scan_from typ now h from (S i) l'
+      else rc_scan_from typ now h from (S i) l'
+  end.
+
+Definition read_page (typ : bytes) (now h : N) (from ps : nat) (st : mstate) : list change * nat :=
+  let pg := firstn ps (rc_scan_from typ now h from 1 (changes st)) in
+  (map snd pg, last (map fst pg) from).
+
+(* ReadChangesQuery.Execute: the configured horizon is passed to the backend for EVERY request,
+   with or without a continuation token *)
+Definition read_changes_cmd (typ : bytes) (horizon now : N) (tok ps : nat) (st : mstate) : list change * nat :=
+  read_page typ now horizon tok ps st.
+
+(* a client following the continuation token: one request per element of [nows] (the time of
+   that request), until a page comes back empty *)
+Fixpoint follow_tokens (typ : bytes) (horizon : N) (ps : nat) (nows : list N) (tok : nat) (st : mstate)
+  : list (list change) * nat :=
+  match nows with
+  | [] => ([], tok)
+  | now :: ns =>
+      let '(pg, tok') := read_changes_cmd typ horizon now tok ps st in
+      match pg with
+      | [] => ([], tok')
+      | _ => let '(pgs, t) := follow_tokens typ horizon ps ns tok' st in (pg :: pgs, t)
+      end
+  end.
+
 (* ---------------------------------------------------------------------------------------- *)
 (* Specification of one write on observables (the property's truth table)                   *)
 
